@@ -217,7 +217,7 @@ fn eval_step(id: Id) -> Box<dyn Component<Real>> {
     }
 }
 
-fn gen_items(rng: &mut SplitMix64, depth: usize, used: &mut Vec<Id>, used_top: &mut Vec<Id>, desc: &mut Vec<String>, budget: &mut usize) -> Vec<Box<dyn Component<Real>>> {
+fn gen_items(rng: &mut SplitMix64, depth: usize, scoped: bool, used: &mut Vec<Id>, used_top: &mut Vec<Id>, desc: &mut Vec<String>, budget: &mut usize) -> Vec<Box<dyn Component<Real>>> {
     let mut out: Vec<Box<dyn Component<Real>>> = Vec::new();
     let n = 1 + rng.usize(4);
     for _ in 0..n {
@@ -225,11 +225,11 @@ fn gen_items(rng: &mut SplitMix64, depth: usize, used: &mut Vec<Id>, used_top: &
             break;
         }
         *budget -= 1;
-        match rng.below(if depth >= 3 { 4 } else { 8 }) {
+        match rng.below(if depth >= 3 { 4 } else { 9 }) {
             0 | 1 => {
                 let id = *rng.pick(&[Id::G, Id::G, Id::A, Id::B]);
                 used.push(id);
-                if depth == 0 {
+                if !scoped {
                     used_top.push(id);
                 }
                 desc.push(format!("evaluate<{id:?}>"));
@@ -242,6 +242,9 @@ fn gen_items(rng: &mut SplitMix64, depth: usize, used: &mut Vec<Id>, used_top: &
             3 => {
                 desc.push("[All; mutate; evaluate<G>; Generational]".into());
                 used.push(Id::G);
+                if !scoped {
+                    used_top.push(Id::G);
+                }
                 out.push(selection::All::new());
                 out.push(mutation::NormalMutation::new_dev(0.1));
                 out.push(eval_step(Id::G));
@@ -249,26 +252,37 @@ fn gen_items(rng: &mut SplitMix64, depth: usize, used: &mut Vec<Id>, used_top: &
             }
             4 => {
                 desc.push("scope{".into());
-                let inner = gen_items(rng, depth + 1, used, used_top, desc, budget);
+                let inner = gen_items(rng, depth + 1, true, used, used_top, desc, budget);
                 desc.push("}".into());
                 out.push(mahf::components::Scope::new(inner));
             }
             5 => {
                 let k = 1 + rng.below(3) as u32;
                 desc.push(format!("while iterations<{k} {{"));
-                let inner = gen_items(rng, depth + 1, used, used_top, desc, budget);
+                let inner = gen_items(rng, depth + 1, true, used, used_top, desc, budget);
                 desc.push("}".into());
                 // a loop in its own scope so that its iteration counter is its own
                 out.push(mahf::components::Scope::new(vec![mahf::components::Loop::new(LessThanN::iterations(k), inner)]));
             }
             6 => {
                 desc.push("if every-2nd-iteration {".into());
-                let inner = gen_items(rng, depth + 1, used, used_top, desc, budget);
+                let inner = gen_items(rng, depth + 1, true, used, used_top, desc, budget);
                 desc.push("}".into());
                 out.push(mahf::components::Scope::new(vec![mahf::components::Loop::new(
                     LessThanN::iterations(2),
                     vec![mahf::components::Branch::new(EveryN::iterations(2), inner)],
                 )]));
+            }
+            7 => {
+                // if/else directly in the enclosing block (no scope): identifiers used in either arm are
+                // requirements of the enclosing level; the condition never / always fires
+                let p = if rng.bool() { 0.0 } else { 1.0 };
+                desc.push(format!("if chance({p}) {{"));
+                let a = gen_items(rng, depth + 1, scoped, used, used_top, desc, budget);
+                desc.push("} else {".into());
+                let b = gen_items(rng, depth + 1, scoped, used, used_top, desc, budget);
+                desc.push("}".into());
+                out.push(mahf::components::Branch::new_with_else(mahf::conditions::RandomChance::new(p), a, b));
             }
             _ => {
                 desc.push("ClearPopulation-or-noop".into());
@@ -294,7 +308,7 @@ fn generated(rep: &Reporter, n_cfg: usize, pools: &[rayon::ThreadPool]) {
                     let mut desc = vec![format!("RandomSpread({pop}); evaluate<G>;")];
                     let mut budget = 10;
                     let mut used_top = vec![Id::G];
-                    let items = gen_items(&mut rng, 0, &mut used, &mut used_top, &mut desc, &mut budget);
+                    let items = gen_items(&mut rng, 0, false, &mut used, &mut used_top, &mut desc, &mut budget);
                     let cfg = Configuration::builder().do_(initialization::RandomSpread::new(pop)).evaluate().do_many_(items).build();
                     // registered evaluators
                     let mut registered: Vec<(Id, bool)> = Vec::new();
@@ -361,8 +375,13 @@ fn generated(rep: &Reporter, n_cfg: usize, pools: &[rayon::ThreadPool]) {
                                 rep.violation("generated:missing-evaluator-detected-after-execution-started", json!({"run": label, "detail": detail, "missing": format!("{missing:?}"), "components_executed": r.exec_events, "objective_calls": problem.instr.calls()}));
                             }
                         }
+                        (Ok(Ok(_)), false) if !missing_top => {
+                            // the identifier is only used inside scope bodies, which are checked when (and if)
+                            // they are entered: a scope in a branch that is never taken is never checked
+                            rep.count("runs_with_a_missing_evaluator_only_in_unentered_scopes", 1);
+                        }
                         (Ok(Ok(_)), false) => {
-                            rep.violation("generated:missing-evaluator-not-reported", json!({"run": label, "detail": detail, "missing": format!("{missing:?}")}));
+                            rep.violation("generated:missing-evaluator-not-reported", json!({"run": label, "detail": detail, "missing": format!("{missing:?}"), "configuration": serde_json::to_value(cfg.heuristic()).unwrap_or_default()}));
                         }
                         (Ok(Err(e)), true) => {
                             rep.violation("generated:run-failed-though-all-evaluators-registered", json!({"run": label, "detail": detail, "error": e}));
